@@ -137,7 +137,12 @@ func toToolsNode(node *ToolsNode, opts ...GraphAddNodeOpt) (*graphNode, *graphAd
 func toLambdaNode(node *Lambda, opts ...GraphAddNodeOpt) (*graphNode, *graphAddNodeOpts) {
 	info, options := getNodeInfo(opts...)
 
-	gn := toNode(info, node.executor, nil, node.executor.meta, node, opts...)
+	// every graph node owns its runnable: compileIfNeeded stores the node's
+	// meta and nodeInfo in it, so a Lambda added under several node keys (or
+	// to several graphs) must not hand out the same composableRunnable.
+	executor := *node.executor
+
+	gn := toNode(info, &executor, nil, executor.meta, node, opts...)
 
 	return gn, options
 }
